@@ -178,4 +178,29 @@ theorem duplicate_after_swap_rejected :
     (transact exModel (dbAfter [setup, swap]) dupInsert).results.map (·.error) = [none, some "constraint violation"] := by
   decide
 
+/-! ### what "agree on a schema index" means -/
+
+/-- two rows have the same index value exactly when they agree on every column (and map key) of the
+    index, an unset optional agreeing with an unset optional only -/
+theorem idxVal_eq_iff (s : Spec) (a b : Row) :
+    idxVal s a = idxVal s b ↔ ∀ ck ∈ s.cols, valueFromColumnKey a ck = valueFromColumnKey b ck := by
+  unfold idxVal
+  constructor
+  · intro h ck hck
+    have := List.map_inj_left.mp h
+    exact this ck hck
+  · intro h
+    exact List.map_congr_left h
+
+/-- the pinned index value (defect D68) left unset optionals out of the tuple: over two optional
+    columns, (unset, a) and (a, unset) were one value -/
+def idxValPinned (spec : Spec) (row : Row) : List Atom := spec.cols.filterMap (valueFromColumnKey row)
+
+theorem pinned_index_value_collides :
+    let s : Spec := ⟨"t1,t2", [⟨"t1", none, .str ""⟩, ⟨"t2", none, .str ""⟩], true⟩
+    let r1 : Row := [("t1", .opt none), ("t2", .opt (some (.str "a")))]
+    let r2 : Row := [("t1", .opt (some (.str "a"))), ("t2", .opt none)]
+    idxValPinned s r1 = idxValPinned s r2 ∧ idxVal s r1 ≠ idxVal s r2 := by
+  decide
+
 end Ovsdb.C06
